@@ -61,7 +61,7 @@ def expected_events(log):
             out.append((k[1], int(k[2]), struct.pack("<q", int(k[3])) + struct.pack("<i", int(k[4])), None))
         elif k[0] == "R":
             if k[1] == "OHx":
-                out.append(("OHx", int(k[2]), struct.pack("<iiQ", 0, 778, 0), None))
+                out.append(("OHx", int(k[2]), struct.pack("<iiQ", 0, 777, 0), None))
             else:
                 out.append((k[1], int(k[2]), b"", None))
         elif k[0] == "S":
@@ -72,7 +72,7 @@ def expected_events(log):
 
 
 def stream_path(casedir):
-    return os.path.join(casedir, "trace", "loom.L", "proc.777", "thread.778")
+    return os.path.join(casedir, "trace", "loom.L", "proc.777", "thread.777")
 
 
 def check_fidelity(casedir, log):
